@@ -4,6 +4,8 @@
 //!   io.write.<t> <fields…> <k>     serialise into a writer that accepts exactly k bytes in total and
 //!                                  then fails with an injected error
 //!       → <result>;w=<hex of every byte the writer accepted>;post=<write calls after the failure>
+//!                                  (<t> = link.eth2 | link.sll | tp.udp | tp.tcp | tp.icmpv4 | tp.icmpv6: the same
+//!                                  value written through LinkHeader::write / TransportHeader::write)
 //!   io.wslice.<t> <fields…> <cap>  write_to_slice into the first cap bytes (filled 0x5a) of a buffer
 //!                                  that continues with 8 canary bytes
 //!       → <result>;buf=<hex of the cap bytes>;canary=intact|clobbered
@@ -12,6 +14,11 @@
 //!   io.limited <hex> <k> <max> <src> <off> <layer> <op>…   one LimitedReader session
 //!       → [<op>=<result>@(max_len,read_len,layer_offset,layer),…];pulled=<bytes handed out>
 //!   io.build.write / io.build.wslice <path> <args…> <payload> <k|cap>   PacketBuilder paths
+//!   io.skip.ext / io.skip.all <next_header> <hex> <k>   Ipv6Header::skip_header_extension /
+//!                                  skip_all_header_extensions on a Read + Seek reader over <hex> that
+//!                                  fails at position k (seeking like std::io::Cursor: never an error,
+//!                                  also past the end)
+//!       → ok(<next header>)|err(io)|err(eof);pos=<final position>;post=<read/seek calls after the failure>
 #![allow(unused_imports, dead_code)]
 use crate::util::*;
 use etherparse::err::LenError;
@@ -121,6 +128,100 @@ impl Read for FailReader {
 impl Seek for FailReader {
     fn seek(&mut self, _pos: SeekFrom) -> std::io::Result<u64> {
         panic!("seek called")
+    }
+}
+
+/// `Read + Seek` over `data`: positions `>= min(fail_at, data.len())` cannot be read — the read
+/// returns the injected error if the reader was told to fail inside the data (`fail_at <=
+/// data.len()`), otherwise end of file (`Ok(0)`).  `seek` behaves like `std::io::Cursor`: the
+/// position simply moves (also behind the end), no error.
+struct SeekFailReader {
+    data: Vec<u8>,
+    pos: u64,
+    fail_at: usize,
+    failed: bool,
+    post: usize,
+}
+
+impl SeekFailReader {
+    fn new(data: Vec<u8>, k: usize) -> Self {
+        SeekFailReader {
+            data,
+            pos: 0,
+            fail_at: k,
+            failed: false,
+            post: 0,
+        }
+    }
+}
+
+impl Read for SeekFailReader {
+    fn read(&mut self, buf: &mut [u8]) -> std::io::Result<usize> {
+        if buf.is_empty() {
+            return Ok(0);
+        }
+        if self.failed {
+            self.post += 1;
+        }
+        let limit = self.fail_at.min(self.data.len()) as u64;
+        if self.pos >= limit {
+            self.failed = true;
+            return if self.fail_at <= self.data.len() {
+                Err(injected())
+            } else {
+                Ok(0)
+            };
+        }
+        let n = (buf.len() as u64).min(limit - self.pos) as usize;
+        let p = self.pos as usize;
+        buf[..n].copy_from_slice(&self.data[p..p + n]);
+        self.pos += n as u64;
+        Ok(n)
+    }
+}
+
+impl Seek for SeekFailReader {
+    fn seek(&mut self, style: SeekFrom) -> std::io::Result<u64> {
+        if self.failed {
+            self.post += 1;
+        }
+        // std::io::Cursor::seek
+        let (base, offset) = match style {
+            SeekFrom::Start(n) => {
+                self.pos = n;
+                return Ok(n);
+            }
+            SeekFrom::End(n) => (self.data.len() as u64, n),
+            SeekFrom::Current(n) => (self.pos, n),
+        };
+        match base.checked_add_signed(offset) {
+            Some(n) => {
+                self.pos = n;
+                Ok(n)
+            }
+            None => Err(std::io::Error::new(
+                std::io::ErrorKind::InvalidInput,
+                "invalid seek to a negative or overflowing position",
+            )),
+        }
+    }
+}
+
+fn skip_line(
+    a: &[&str],
+    f: impl FnOnce(&mut SeekFailReader, IpNumber) -> Result<IpNumber, std::io::Error>,
+) -> Option<String> {
+    match a {
+        [nh, d, k] => {
+            let nh: u8 = num(nh)?;
+            let mut r = SeekFailReader::new(hex(d)?, num(k)?);
+            let rs = match f(&mut r, IpNumber(nh)) {
+                Ok(n) => format!("ok({})", n.0),
+                Err(e) => io_err(&e),
+            };
+            Some(format!("{};pos={};post={}", rs, r.pos, r.post))
+        }
+        _ => None,
     }
 }
 
@@ -1053,6 +1154,17 @@ pub fn run(op: &str, a: &[&str]) -> Option<String> {
         "io.write.tcp" => simple_write!(a, mk_tcp),
         "io.write.icmpv4" => simple_write!(a, mk_icmpv4),
         "io.write.icmpv6" => simple_write!(a, mk_icmpv6),
+        // ---- the enum wrappers (LinkHeader::write, TransportHeader::write)
+        "io.write.link.eth2" => simple_write!(a, |f| mk_eth2(f).map(|o| o.map(LinkHeader::Ethernet2))),
+        "io.write.link.sll" => simple_write!(a, |f| mk_sll(f).map(|o| o.map(LinkHeader::LinuxSll))),
+        "io.write.tp.udp" => simple_write!(a, |f| mk_udp(f).map(|o| o.map(TransportHeader::Udp))),
+        "io.write.tp.tcp" => simple_write!(a, |f| mk_tcp(f).map(|o| o.map(TransportHeader::Tcp))),
+        "io.write.tp.icmpv4" => {
+            simple_write!(a, |f| mk_icmpv4(f).map(|o| o.map(TransportHeader::Icmpv4)))
+        }
+        "io.write.tp.icmpv6" => {
+            simple_write!(a, |f| mk_icmpv6(f).map(|o| o.map(TransportHeader::Icmpv6)))
+        }
         "io.write.ipv4exts" => {
             // <start> <auth> <k>
             let (f, k) = split_last(a)?;
@@ -1319,6 +1431,9 @@ pub fn run(op: &str, a: &[&str]) -> Option<String> {
         "io.limited" => limited(a)?,
         "io.build.write" => build(a, false)?,
         "io.build.wslice" => build(a, true)?,
+        // ---- Read + Seek skipping of IPv6 extension headers
+        "io.skip.ext" => skip_line(a, |r, n| Ipv6Header::skip_header_extension(r, n))?,
+        "io.skip.all" => skip_line(a, |r, n| Ipv6Header::skip_all_header_extensions(r, n))?,
         _ => return None,
     })
 }
